@@ -104,6 +104,13 @@ def named_underscore_case(rep, drv, rnd, i):
            ('query', 'qu', ('all',), [lst, [Sym('v'), 0], [Sym('v'), 1]]),
            ('query', 'eu', ('all',), [A('b')]), ('query', 'eu', ('all',), [[Sym('v'), 0]]),
            ('query', 'ru', ('all',), [[Sym('v'), 0], [Sym('v'), 1]])]
+    prog += [('lit1', [('F', 'g', [('A', 'a'), ('A', 'b')])], 'tru'), ('lit2', [('F', 'g', [('A', 'a,b')])], 'tru'),
+             ('lit3', [('L', [('A', 'x'), ('A', 'y')])], 'tru'), ('lit4', [('L', [('A', 'x,y')])], 'tru'),
+             ('lit5', [('A', '7')], 'tru'), ('lit6', [('N', '7')], 'tru'), ('lit7', [('F', 'g', [('A', 'a'), ('A', 'b')])], 'tru')]
+    for nm in ['lit1', 'lit2', 'lit3', 'lit4', 'lit5', 'lit6', 'lit7']:
+        ops.append(('query', nm, ('all',), [[Sym('v'), 0]]))
+    ops += [('query', 'lit5', ('all',), [[Sym('i'), 7]]), ('query', 'lit6', ('all',), [A('7')]), ('query', 'lit2', ('all',), [[Sym('f'), 'g', A('a'), A('b')]])]
+    ops[0] = ('load', 'overwrite', prog)
     rep.count('named-underscore-variables')
     if scen.three_way(rep, drv, ops, 'case %d named underscore variables' % i) == 'ok':
         rep.nontriv(scen.norm(scen.ops_json(ops[:1])))
